@@ -159,3 +159,34 @@ Definition html_reported (rs : list rfile) : list rfile := filter (fun r => is_a
 
 (* ---------------------------------------------------------------- files *)
 Definition encode_files (rs : list (name * cov)) : list name := map fst rs.
+
+(* ---------------------------------------------------------------- ActiveData-ETL (output_activedata_etl, src/output.rs:74-182) *)
+(* covered / uncovered: the keys of `lines` with count > 0 / == 0, in BTreeMap order *)
+Definition ade_covered (c : cov) : list N := map fst (filter (fun p : N * N => 0 <? p.2 = true) (sorted_kv (c_lines c))).
+Definition ade_uncovered (c : cov) : list N := map fst (filter (fun p : N * N => p.2 =? 0 = true) (sorted_kv (c_lines c))).
+(* `end = last key (or 0) + 1` in u32 *)
+Definition ade_end (c : cov) : N := wrap32 (last_line (c_lines c) + 1).
+(* start_indexes: every function's start, sort_unstable *)
+Definition ade_starts (c : cov) : list N := merge_sort N.le (map (fun p : name * func => f_start p.2) (map_to_list (c_funcs c))).
+(* `func_end = end; for start in &start_indexes { if *start > function.start { func_end = *start; break } }` *)
+Definition ade_func_end (starts : list N) (s e : N) : N :=
+  match filter (fun x => s < x) starts with x :: _ => x | [] => e end.
+Definition ade_fend (c : cov) (f : func) : N := ade_func_end (ade_starts c) (f_start f) (ade_end c).
+(* `.filter(|&&x| x >= function.start && x < func_end)` *)
+Definition in_range (s e x : N) : bool := (s <=? x) && (x <? e).
+Record ade_part := mkAdePart { ap_covered : list N; ap_uncovered : list N; ap_total_covered : N; ap_total_uncovered : N }.
+Definition ade_part_of (cv un : list N) : ade_part := mkAdePart cv un (nlen cv) (nlen un).
+(* one record per function, in the hash map's iteration order *)
+Definition ade_method (c : cov) (f : func) : ade_part :=
+  ade_part_of (filter (fun x => in_range (f_start f) (ade_fend c f) x = true) (ade_covered c))
+              (filter (fun x => in_range (f_start f) (ade_fend c f) x = true) (ade_uncovered c)).
+Definition ade_methods (c : cov) : list (name * ade_part) := map (fun p : name * func => (p.1, ade_method c p.2)) (map_to_list (c_funcs c)).
+(* orphan sets: the covered (uncovered) lines, minus every line pushed to some method's list *)
+Definition ade_orphan (ms : list (name * ade_part)) (sel : ade_part -> list N) (ls : list N) : list N :=
+  filter (fun l => Forall (fun m : name * ade_part => l ∉ sel m.2) ms) ls.
+Record ade_file := mkAdeFile { af_name : name; af_methods : list (name * ade_part); af_file : ade_part; af_orphan : ade_part }.
+Definition encode_ade_file (rel : name) (c : cov) : ade_file :=
+  let ms := ade_methods c in
+  mkAdeFile rel ms (ade_part_of (ade_covered c) (ade_uncovered c))
+            (ade_part_of (ade_orphan ms ap_covered (ade_covered c)) (ade_orphan ms ap_uncovered (ade_uncovered c))).
+Definition encode_ade (rs : list (name * cov)) : list ade_file := map (fun r => encode_ade_file r.1 r.2) rs.
